@@ -124,7 +124,9 @@ Definition pred (which : nat) (arg : Z) : bool :=
 Definition m_code (class : nat) (code : Z) : option Z :=
   match class with
   | 0%nat => Some code | 1%nat => Some 4 | 2%nat => Some 1
-  | 6%nat => Some 4          (* the backend overruns the client's timeout: the transport answers DeadlineExceeded *)
+  | 6%nat => Some 4          (* the backend overruns the client's timeout: the transport answers DeadlineExceeded.
+                                The budget is real time: the harness also encodes as class 6 a class-0 call that was let in
+                                and came back DeadlineExceeded (an instant backend that still overran; c01.py overran()) *)
   | _ => None                (* panic *)
   end.
 Definition m_mark (class : nat) (code : Z) : bool :=
